@@ -73,7 +73,20 @@ BodyNamesTaken(d) ==
 RECURSIVE AtPath(_, _)
 AtPath(v, path) == IF path = <<>> THEN v
                    ELSE IF v.t = "obj" /\ Head(path) \in DOMAIN v.m THEN AtPath(v.m[Head(path)], Tail(path))
+                   ELSE IF v.t = "arr" /\ \E i \in DOMAIN v.a : ToString(i) = Head(path)
+                        THEN AtPath(v.a[CHOOSE i \in DOMAIN v.a : ToString(i) = Head(path)], Tail(path))
                    ELSE Absent
+
+(* the operation <opkey> takes its body from a shared body parameter, and the document-level consumes (the one the *)
+(* converter applies to shared parameters) names two or more media types, none of them a form type                *)
+SharedBodyOfSeveralMediaTypes(d, opkey) ==
+   LET paths == Sub(d, "paths")
+       ks == {k \in OpKeys(paths, Methods2) : Has(paths.m[k[1]], k[2]) /\ k[1] \o " " \o k[2] = opkey}
+       mts == StrSet(Opt(d, "consumes"))
+   IN /\ ks # {} /\ Cardinality(mts) >= 2 /\ mts \cap FormMTs = {}
+      /\ LET k == CHOOSE x \in ks : TRUE IN
+         \E x \in Elems(paths.m[k[1]].m[k[2]], "parameters") :
+            Has(x, "$ref") /\ Opt(Deref("#/parameters/", Sub(d, "parameters"), x), "in") = S("body")
 
 IsBack(v) == v.dir = "back" /\ v.failed = "v2_again_describes_another_api"
 IsFwd(v)  == v.dir = "fwd" /\ v.failed = "v3_describes_another_api"
@@ -153,6 +166,20 @@ Class(line, v) ==
    \* F-C17-15 FromV3Operation insists on a free name among "body" / "requestBody" although the original name is at hand
    ELSE IF v.failed = "from_v3_error" /\ BodyNamesTaken(d)
       THEN "from_v3_fails_body_names_taken"
+   \* F-C17-17 ToV3Parameter (formData case) writes its x-formData-name marker into the parameter of the INPUT document
+   ELSE IF /\ v.failed = "to_v3_changed_its_input" /\ Last(p) = "x-formData-name" /\ v.exp = Absent /\ v.got.t = "str"
+           /\ LET prm == AtPath(line.rd, SubSeq(p, 1, Len(p) - 1)) IN
+              prm # Absent /\ Opt(prm, "in") = S("formData") /\ Opt(prm, "name") = v.got
+      THEN "to_v3_writes_formdata_name_into_input"
+   \* F-C17-18 FromV3SchemaRef resets Nullable on the schema of the INPUT document when it emits x-nullable
+   ELSE IF v.failed = "from_v3_changed_its_input" /\ Last(p) = "nullable" /\ v.exp = B(TRUE) /\ v.got = Absent
+      THEN "from_v3_resets_nullable_in_input"
+   \* F-C17-19 ... so of the conversions of a schema shared by several media types only the first emits x-nullable, and for a
+   \*          shared body parameter FromV3 keeps the last: x-nullable inside its inline schema is lost on the way back
+   ELSE IF /\ IsBack(v) /\ Len(p) >= 5 /\ p[1] = "ops" /\ p[3] = "body" /\ p[4] = "schema" /\ Last(p) = "nullable"
+           /\ v.exp = B(TRUE) /\ v.got = Absent
+           /\ SharedBodyOfSeveralMediaTypes(d, p[2])
+      THEN "back_shared_body_xnullable_lost_with_several_media_types"
    \* F-C17-13 ToV3 leaves paths unset when the v2 document has no path: the v3 document is invalid
    ELSE IF v.failed \in {"v3_invalid_error", "v3_reloaded_invalid_error"} /\ Keys(Sub(d, "paths")) = {}
       THEN "empty_paths_invalid_v3"
